@@ -9,12 +9,12 @@ import sys
 
 V = os.path.dirname(os.path.dirname(os.path.abspath(__file__)))
 names = sys.argv[1:] or sorted(d for d in os.listdir(V + "/seeded") if os.path.isdir(V + "/seeded/" + d))
-respath = V + "/seeded/RESULTS.json"
+respath = os.environ.get("VERIF_SEEDED_RESULTS") or (V + "/seeded/RESULTS.json")
 results = json.load(open(respath)) if os.path.exists(respath) else {}
 # The patch is applied in a scratch worktree of /repo's HEAD (removed afterwards) and the
 # checks are pointed at it with VERIF_REPO, so /repo itself is never touched and builders
 # running checks against /repo at the same time are not disturbed.
-WT = "/root/scratch/seeded_wt"
+WT = os.environ.get("VERIF_SEEDED_WT") or "/root/scratch/seeded_wt"
 for n in names:
     d = V + "/seeded/" + n
     meta = json.load(open(d + "/meta.json"))
